@@ -251,6 +251,7 @@ inline size_t pick_len(Rng & r, const GenOpts & g, size_t cap) {
         else if (k < 60) n = r.below(10);
         else if (k < 90) n = r.below(65);
         else if (k < 97) n = r.below(600);
+        else if (cap < (1u << 20) && r.chance(1, 2)) n = cap - r.below(cap < 40 ? (uint32_t)cap + 1 : 40);      // at the top of what the length field can express: where narrow size arithmetic wraps
         else if (g.big_payloads) {
             unsigned j = r.below(4);
             n = j == 0 ? 255 : j == 1 ? 65535 : j == 2 ? 65536 + r.below(250000) : r.below(70000);
